@@ -497,3 +497,21 @@ Definition scan_all (src : str) : list (N * token) * scan_end :=
   scan_loop (2 * length src + 2) (init_state src).
 
 End WithClasses.
+
+(* the raw token stream with the scanner position after each token (a synthetic
+   ';' does not move the scanner) *)
+Section Ext.
+Variable U : uclass.
+Fixpoint scan_loop_ext (fuel : nat) (s : sstate) : list (N * token * N) * scan_end :=
+  match fuel with
+  | O => ([], SE_Fuel)
+  | S f =>
+      match next_token U s with
+      | SR_tok p t s' => let '(ts, e) := scan_loop_ext f s' in ((p, t, s_pos s') :: ts, e)
+      | SR_eof s' => ([], SE_Eof s')
+      | SR_err p k s' => ([], SE_Err p k s')
+      end
+  end.
+Definition scan_all_ext (src : str) : list (N * token * N) * scan_end :=
+  scan_loop_ext (2 * length src + 2) (init_state src).
+End Ext.
